@@ -23,7 +23,7 @@ ASSUMPTIONS = ["six 1.17 shim", "actor assumption", "operations are issued at qu
                "about races between a reinstall and messages in flight)"]
 BUDGET = {"quick": (600, 150), "thorough": (80000, 2700)}
 FAULTS = ["reinstall", "clean_restart"]
-PROBES = ["identity_change_notification_after_reinstall", "pin_kept_after_reinstall", "untrusted_first_message_refused", "untrusted_bundle_refused", "autotrust_replaced_pin",
+PROBES = ["group_message_to_changed_identity", "group_message_from_changed_identity", "identity_change_notification_after_reinstall", "pin_kept_after_reinstall", "untrusted_first_message_refused", "untrusted_bundle_refused", "autotrust_replaced_pin",
           "pin_enforced_after_restart", "messaging_resumed_with_autotrust", "first_contact_by_incoming_message", "autotrust_toggled_while_connected"]
 SHRINK = ["ops"]
 PH = {"A": "4915150000001", "B": "4915150000002", "C": "4915150000003"}
@@ -48,10 +48,14 @@ def case(idx, tier, base):
     reinstalled = False
     for i in range(r.randint(4, 14)):
         x = r.random()
-        if x < 0.35:
+        if x < 0.28:
             ops.append("a2b")
-        elif x < 0.7:
+        elif x < 0.56:
             ops.append("b2a")
+        elif x < 0.63:
+            ops.append("a2g")
+        elif x < 0.7:
+            ops.append("b2g")
         elif x < 0.82 and i >= 1:
             ops.append("reinstall_b")
             reinstalled = True
@@ -88,6 +92,8 @@ class W(convo.World):
         self.b = self.add_client("B", PH["B"])
         self.c = self.add_client("C", PH["C"])
         self.server.low_mark = 0
+        self.gj = PH["A"] + "-1500000000@g.us"
+        self.server.groups[self.gj] = {"creator": self.a.jid, "subject": "g", "participants": [self.a.jid, self.b.jid, self.c.jid]}
         self.b_inc = 0                 # incarnation of B
         self.b_keys = {}               # incarnation -> identity public key object
         self.pinned = None             # incarnation whose identity A has pinned for B
@@ -108,15 +114,19 @@ class W(convo.World):
             self.ready[client.name] = False
 
     def on_app_message(self, client, e):
-        rec = self.sent.get((e.getFrom(), e.getId()))
+        sender = e.getParticipant() if e.isGroupMessage() else e.getFrom()
+        rec = self.sent.get((sender, e.getId()))
         if rec is None:
             self.violate("delivery/unknown-message", "%s got a message nobody sent: id %s from %s" % (client.name, e.getId(), e.getFrom()))
             return
+        want = {"a2b": self.b, "a2g": self.b, "b2a": self.a, "b2g": self.a, "c2a": self.a}[rec["dir"]]
+        if client is not want:
+            return      # the third member of the group: not part of this property's story
         rec["delivered"] += 1
         body = getattr(e, "getBody", lambda: None)()
         if body != rec["body"]:
             self.violate("delivery/content-differs", "%s: %r vs %r" % (client.name, body, rec["body"]))
-        if client is self.a and rec["dir"] == "b2a":
+        if client is self.a and rec["dir"] in ("b2a", "b2g"):
             if self.pinned is None:
                 self.pinned = rec["inc"]
                 self.probe("first_contact_by_incoming_message")
@@ -127,7 +137,7 @@ class W(convo.World):
                     self.violate("changed-identity-accepted/incoming-message",
                                  "A's application was shown message tok %d sent by B after its reinstall (identity #%d) although "
                                  "A had pinned identity #%d and automatic trust is off" % (rec["tok"], rec["inc"], self.pinned))
-        if client is self.b and rec["dir"] == "a2b":
+        if client is self.b and rec["dir"] in ("a2b", "a2g"):
             if rec["inc"] != self.b_inc:
                 pass
             elif self.pinned is not None and self.pinned != self.b_inc and not self.auto:
@@ -149,8 +159,10 @@ class W(convo.World):
         tok = self.tok
         inc = self.b_inc
 
+        to_jid = self.gj if direction in ("a2g", "b2g") else to.jid
+
         def op():
-            ent, fields = c03.compose("text", to.jid, self.seed, tok)
+            ent, fields = c03.compose("text", to_jid, self.seed, tok)
             self.sent[(frm.jid, ent.getId())] = {"dir": direction, "inc": inc, "tok": tok, "delivered": 0,
                                                   "body": fields["conversation"], "after": self.reinstalled_since_pin(),
                                                   "auto": self.auto}
@@ -219,6 +231,16 @@ class W(convo.World):
                 if self.reinstalled_since_pin() or (self.pinned is not None and self.pinned != self.b_inc):
                     self.after_reinstall_attempts += 1
                 self.send(self.b, self.a, "b2a")
+            elif op == "a2g":
+                if self.reinstalled_since_pin():
+                    self.after_reinstall_attempts += 1
+                self.probe("group_message_to_changed_identity" if self.reinstalled_since_pin() else "group_message")
+                self.send(self.a, self.b, "a2g")
+            elif op == "b2g":
+                if self.reinstalled_since_pin() or (self.pinned is not None and self.pinned != self.b_inc):
+                    self.after_reinstall_attempts += 1
+                    self.probe("group_message_from_changed_identity")
+                self.send(self.b, self.a, "b2g")
             elif op == "c2a":
                 self.send(self.c, self.a, "c2a")
             elif op == "reinstall_b":
